@@ -144,6 +144,16 @@ func jitterNanos(t *rapid.T, m protoreflect.Message) bool {
 	return changed
 }
 
+// nodeSetKey is the node's content with every list-valued attribute read as a set.
+func nodeSetKey(n *sbom.Node) string {
+	var b strings.Builder
+	fds := n.ProtoReflect().Descriptor().Fields()
+	for i := 0; i < fds.Len(); i++ {
+		fmt.Fprintf(&b, "%d=%s;", fds.Get(i).Number(), hx.RefSetKey(n.ProtoReflect(), fds.Get(i), true))
+	}
+	return b.String()
+}
+
 func genC13Node(t *rapid.T, label string, text *rapid.Generator[string]) *sbom.Node {
 	n := &sbom.Node{}
 	hx.Populate(t, label, n.ProtoReflect(), hx.PopOpts{Text: text, Depth: 3, MaxRep: 3, FillProb: 45})
@@ -217,7 +227,8 @@ func c13NodeProperty(t *rapid.T) {
 	ls := hx.Leaves(m.ProtoReflect(), "")
 	leaf := ls[rapid.IntRange(0, len(ls)-1).Draw(t, "leaf")]
 	leaf.Apply(t)
-	sameToSecond := hx.RefKey(m, true) == hx.RefKey(x, true)
+	// no change of content: same to the second, or a list attribute that only gained a repeated member (set-valued)
+	sameToSecond := hx.RefKey(m, true) == hx.RefKey(x, true) || nodeSetKey(m) == nodeSetKey(x)
 	hx.Class("mutated:" + leafClass(leaf.Path))
 	if changed || !sameToSecond {
 		if hx.NonTrivial(hx.Digest("node", hx.RefKey(x, false), leaf.Path, hx.RefKey(m, false))) {
